@@ -6,7 +6,7 @@ import (
 	"strings"
 )
 
-func init() { allFacts = append(allFacts, factFlagSrc, factFlagParseGuard) }
+func init() { allFacts = append(allFacts, factFlagSrc, factFlagParseGuard, factFlagMapBeforeSkips) }
 
 // F14: the flag sources (sources/flag/flag.go, sources/pflag/pflag.go, sources/flag/flaghelper/*.go)
 //   a  routing table of registerFlags: for each `case` of the three switches (tagless, `switch k`, `switch ft`)
@@ -438,4 +438,44 @@ func factFlagParseGuard() {
 		miss("F14p", "sources/flag/flag.go and sources/pflag/pflag.go: method (*Set).Value")
 	}
 	emit("/-- F14p: both flag sources parse the flag set in Value only under `if !s.Flags.Parsed()` -/\ndef flagParseOnlyIfUnparsed : Bool := %v\n\n", ok["sources/flag/flag.go"] && ok["sources/pflag/pflag.go"])
+}
+
+// factFlagMapBeforeSkips (F14m): in the standard-library source's registerFlags loop the flag-name -> field-name entry
+// (`s.flagFieldName[name] = sf.Name`) is recorded BEFORE the statements that skip registration (`continue` for a flag
+// that exists already / a `dialsflag:"-"` tag): Value looks every visited flag up in that map, so a flag that the
+// application - or an earlier Set over the same FlagSet - registered still sets its field.
+func factFlagMapBeforeSkips() {
+	f := parse("sources/flag/flag.go")
+	fd := methodDecl(f, "Set", "registerFlags")
+	before, found := false, false
+	if fd != nil {
+		ast.Inspect(fd, func(n ast.Node) bool {
+			fs, ok := n.(*ast.ForStmt)
+			if !ok {
+				return true
+			}
+			mapAt, firstSkip := -1, -1
+			for i, st := range fs.Body.List {
+				if as, ok := st.(*ast.AssignStmt); ok && len(as.Lhs) == 1 && strings.HasPrefix(src(as.Lhs[0]), "s.flagFieldName[") && mapAt < 0 {
+					mapAt = i
+				}
+				if is, ok := st.(*ast.IfStmt); ok && firstSkip < 0 {
+					for _, b := range is.Body.List {
+						if br, ok := b.(*ast.BranchStmt); ok && br.Tok == token.CONTINUE {
+							firstSkip = i
+						}
+					}
+				}
+			}
+			if mapAt >= 0 {
+				found = true
+				before = firstSkip < 0 || mapAt < firstSkip
+			}
+			return true
+		})
+	}
+	if !found {
+		miss("F14m", "sources/flag/flag.go registerFlags: `s.flagFieldName[name] = sf.Name` as a statement of the field loop")
+	}
+	emit("/-- F14m: registerFlags (sources/flag) records the flag-name -> field-name entry before any statement that skips registration -/\ndef flagMapRecordedBeforeSkips : Bool := %v\n\n", before)
 }
